@@ -12,5 +12,6 @@ CONSTANTS
   FixF7 = TRUE
   FixN1 = TRUE
   FixN3 = TRUE
+  FixK11 = TRUE
 POSTCONDITION Consumed
 CHECK_DEADLOCK FALSE
